@@ -39,7 +39,8 @@ pub fn stark_verify<Layout: LayoutTrait>(
     )?;
 
     // Compute query points.
-    let points = queries_to_points(queries, stark_domains);
+    let points =
+        queries_to_points(queries, stark_domains).map_err(|_| Error::EvalDomainTooLarge)?;
 
     // Evaluate the FRI input layer at query points.
     let eval_info = OodsEvaluationInfo {
@@ -80,6 +81,9 @@ pub enum Error {
 
     #[error("OodsEval Error")]
     OodsEvalError(#[from] crate::oods::OodsEvalError),
+
+    #[error("evaluation domains of size greater than 2**64 are not supported")]
+    EvalDomainTooLarge,
 }
 
 #[cfg(not(feature = "std"))]
@@ -99,4 +103,7 @@ pub enum Error {
 
     #[error("OodsEval Error")]
     OodsEvalError(#[from] crate::oods::OodsEvalError),
+
+    #[error("evaluation domains of size greater than 2**64 are not supported")]
+    EvalDomainTooLarge,
 }
